@@ -101,6 +101,48 @@ def run_cp(name, timeout=3000, sabotage=None):
         shutil.rmtree(d, ignore_errors=True)
 
 
+def run_cp_sim(seconds=240, seed=1):
+    """tlc -simulate on CPSystem with larger constants (texts <= 4 over {a,b}, 3 registers, 6 operations, palette
+    {1,31,34}): random walks, every invariant and action property checked on every step; runs until the time limit."""
+    import subprocess
+    d = tlcrun.scratch('verif-cpsim-')
+    try:
+        snap = os.path.join(d, 'spec')
+        os.makedirs(snap)
+        for fn in os.listdir(tlcrun.SPEC):
+            if fn.endswith('.tla'):
+                shutil.copy(os.path.join(tlcrun.SPEC, fn), os.path.join(snap, fn))
+        with open(os.path.join(snap, 'MC.cfg'), 'w') as f:
+            f.write('SPECIFICATION Spec\nCONSTANTS\n  MaxLen = 4\n  MaxRegs = 3\n  MaxDepth = 6\n  Alphabet = {97, 98}\n'
+                    '  Palette = {1, 3, 4}\n  MaxTotalLen = 8\nINVARIANT WF\nINVARIANT NoDup\nPROPERTY Refines\nPROPERTY TablesFramed\n'
+                    'CHECK_DEADLOCK FALSE\n')
+        tf = os.path.join(d, 'texts.json')
+        with open(tf, 'w') as f:
+            json.dump([[ord(c) for c in t] for t in PALETTE], f)
+        cmd = ['timeout', str(seconds * 3)] + tlcrun.tlc_cmd('CPSystem.tla', 'MC.cfg', 16, os.path.join(d, 'meta'),
+                                                         ['-simulate', 'num=%d' % max(4, seconds // 3), '-depth', '7', '-seed', str(seed)], '6g')
+        e = dict(os.environ, VERIF_TEXTS=tf)
+        p = subprocess.run(cmd, cwd=snap, env=e, stdout=subprocess.PIPE, stderr=subprocess.STDOUT, text=True)
+        out = p.stdout
+        bad = [l for l in out.splitlines() if l.startswith('Error')]
+        import re as _re
+        m = None
+        for m in _re.finditer(r'Progress: (\d+) states checked, (\d+) traces generated', out):
+            pass
+        states = int(m.group(1)) if m else 0
+        traces = int(m.group(2)) if m else 0
+        m2 = _re.search(r'The number of states generated: (\d+)', out)
+        if m2:
+            states = max(states, int(m2.group(1)))
+        ok = not bad and states > 0
+        return {'model': 'CPSystem/simulate', 'ok': ok, 'states': states, 'transitions': states, 'wall_s': seconds,
+                'what': 'tlc -simulate for %d s: %d random behaviours of up to 6 operations over texts <= 4 on {a,b}, 3 registers, palette '
+                        "['1','31','34']: WF, NoDup, refinement of every contract clause, TablesFramed on every step" % (seconds, traces),
+                'detail': '' if ok else '\n'.join(bad)[:1500] + out[-1500:]}
+    finally:
+        shutil.rmtree(d, ignore_errors=True)
+
+
 def desc_to_op(dsc):
     """Model operation description -> op description of harness/ops.py."""
     def forms(S):
@@ -147,12 +189,13 @@ def desc_to_op(dsc):
 _cache = {}
 
 
-def run_for(prop, tier):
+def run_for(prop, tier, seed=1):
     """Design runs relevant to a property (the reference model covers the history properties)."""
     if prop in ('C04', 'C05', 'C06', 'C07', 'C08', 'C09'):
         # these checks also export + replay the reference model (checks.model_replay)
         cp = run_cp('cp_deep' if tier == 'thorough' else 'cp_quick')
-        return ([run_model('deep')] if tier == 'thorough' else []) + [cp]
+        sim = [run_cp_sim(240, seed)] if (tier == 'thorough' and prop in ('C04', 'C05', 'C06', 'C07')) else []
+        return ([run_model('deep')] if tier == 'thorough' else []) + [cp] + sim
     if prop == 'C12':
         return [run_model('small' if tier == 'thorough' else 'quick'), run_cp('cp_deep' if tier == 'thorough' else 'cp_quick')]
     if prop not in ('C01', 'C02', 'C03', 'C15'):
